@@ -218,8 +218,13 @@ class Statement(object):
             min_size += statements[x].code_pkg.size
 
         raw_post_byte = self.code_pkg.post_byte.int
-        max_size += 2
-        min_size += 2
+        if positive_range:
+            max_size += 2
+            min_size += 2
+        else:
+            # a backward offset also spans this instruction, including its own 8-bit offset byte
+            max_size += self.code_pkg.size + 1
+            min_size += self.code_pkg.size + 1
 
         if positive_range:
             if min_size <= 127 and max_size <= 127:
